@@ -71,20 +71,27 @@ theorem decode_reply (r : Req) :
   · simp [decodeResp]
 
 theorem procRun_whole (unit tid uid fc : Nat) (data : Bytes) (m : Msg) (fuel : Nat) (last : Option Result)
-    (hu : validUnit [unit] false uid = true) (hd : decodeResp (fc :: data) = some m) :
-    procRun unit (fuel + 2) (tcpFrame tid 0 uid fc data) last = (some (.ok tid uid m), false, []) := by
+    (hu : validUnit [unit] false uid = true) (hd : decodeResp (fc :: data) = some m)
+    (ha : answers tid tid m = true) :
+    procRun unit tid (fuel + 2) (tcpFrame tid 0 uid fc data) last = (some (.ok tid uid m), false, []) := by
   have hw := tcp_whole tid 0 uid fc data []
   rw [List.append_nil] at hw
   have hn : tcpStep [] = .wait := by simp [tcpStep]
   rw [procRun, hw]
-  simp only [hu, if_true, hd, List.drop_length]
+  simp only [hu, if_true, hd, List.drop_length, ha]
   rw [procRun, hn]
 
 theorem validUnit_self (u : Nat) : validUnit [u] false u = true := by simp [validUnit]
 
+/-- the reply to a request passes the `_addReply` filter of that request -/
+theorem answers_expected (tid : Nat) (r : Req) : answers tid tid (Spec.expected r) = true := by
+  unfold Spec.expected
+  split <;> simp [answers]
+
 theorem process_reply (tid : Nat) (r : Req) :
-    processResp r.unit [] (replyOf tid r) = (.ok tid r.unit (Spec.expected r), []) := by
+    processResp r.unit tid [] (replyOf tid r) = (.ok tid r.unit (Spec.expected r), []) := by
   have hd := decode_reply r
+  have ha := answers_expected tid r
   unfold processResp
   simp only [List.nil_append]
   have hlen := replyOf_length tid r
@@ -94,11 +101,11 @@ theorem process_reply (tid : Nat) (r : Req) :
   split
   · rename_i h
     rw [if_pos h] at hd
-    rw [procRun_whole _ _ _ _ _ _ _ _ (validUnit_self _) hd]
+    rw [procRun_whole _ _ _ _ _ _ _ _ (validUnit_self _) hd ha]
     rfl
   · rename_i h
     rw [if_neg h] at hd
-    rw [procRun_whole _ _ _ _ _ _ _ _ (validUnit_self _) hd]
+    rw [procRun_whole _ _ _ _ _ _ _ _ (validUnit_self _) hd ha]
     rfl
 
 theorem reply_reassembled (tid : Nat) (r : Req) :
